@@ -1357,7 +1357,7 @@ seq_t dtw_warping_paths_ndim(seq_t *wps,
         seq_t mir_value = INFINITY;
         idx_t mir_rel = 0;
         seq_t mic_value = INFINITY;
-        idx_t mic = 0;
+        idx_t mic = l2;  // nothing to mark if no end point is found in the last row
         // Find smallest value in last column
         if (settings->psi_1e != 0) {
             wpsi = final_wpsi;
@@ -1744,7 +1744,7 @@ seq_t dtw_warping_paths_ndim_euclidean(seq_t *wps,
         seq_t mir_value = INFINITY;
         idx_t mir_rel = 0;
         seq_t mic_value = INFINITY;
-        idx_t mic = 0;
+        idx_t mic = l2;  // nothing to mark if no end point is found in the last row
         // Find smallest value in last column
         if (settings->psi_1e != 0) {
             wpsi = final_wpsi;
